@@ -139,7 +139,7 @@ for tag in ('f32', 'f64'):
     d.shim(fn, 'void', xy + [(T, 'a'), (T, 'b')], 'auto r = glm::slerp(%s, %s, a); auto s = glm::slerp(%s, %s, b); %s %s' % (
         qx, qy, qy, qx, q_store('r'), q_store('s', out='rev')), outs=[(T, 'out', 4), (T, 'rev', 4)])
     R(fn, 'glm::slerp(x, y, t) vs glm::slerp(y, x, 1 - t)  ' + QC, requires=UNIT + [('b_is_one_minus_a', 'b == 1 - a')],
-      ensures=[('equal_up_to_sign', 'Or(And(eqv(out, rev)), And(eqv(out, vneg(rev))))')])
+      ensures=[('equal_for_nonnegative_dot_opposite_for_negative_dot', 'And(eqv(out, [If(%s < 0, -c, c) for c in rev]))' % D)])
 
     # ------------------------------------------------------------------ slerp with k extra spins: total angle theta + k*pi
     PHI = '(k*%s + %s)' % (PI[tag], TH)
